@@ -30,7 +30,7 @@ def _setup(tier):
     """lazy import: the JIT switch has to be set before uxarray / numba are imported"""
     if _READY:
         return
-    os.environ["NUMBA_DISABLE_JIT"] = "0" if tier == "thorough" else "1"
+    os.environ["NUMBA_DISABLE_JIT"] = "0"   # always the library default (JIT on): the half-compiled state under NUMBA_DISABLE_JIT=1 depends on numba disk caches
     import warnings
     warnings.filterwarnings("ignore")
     import numpy
